@@ -135,6 +135,7 @@ def main(tier, seed):
     sp = syn.Spellings(oracle)
     chk.log('spellings for %d token kinds (verified with the real lexer)' % len(sp.sp))
     tok_results = synrun.token_suite(chk, oracle, sp, jobs, ['C02'], B['tokens'], B['ctx'])
+    synrun.deep_suite(chk, oracle, sp, jobs, ['C02'], 2 if tier == 'thorough' else 1, 3)
     synrun.lexer_suite(chk, oracle, sp, jobs, ['C02'], B['lex'], B['pipeline'])
     probes, findings = growth_probe(chk, tok_results[:B['tokens'] + 1], oracle, sp, B['pump'], jobs, pairs=(tier == 'thorough'))
     chk.log('growth probe: %d nesting units pumped and replayed natively, %d findings' % (len(probes), len(findings)))
